@@ -1303,6 +1303,10 @@ pub struct AutoEngine {
 
 impl Engine for AutoEngine {
     type Case = AutoCase;
+    fn hang_limit_secs(&self) -> u64 {
+        // cases of this engine take milliseconds
+        90
+    }
     fn property(&self) -> &str {
         self.prop
     }
